@@ -441,6 +441,25 @@ func TestVerifC11Sel(t *testing.T) { runSpecs(t, "C11", c11SelSpecs()) }
 // beyond 4 GiB (block numbers >= 2^18, offsets that do not fit 32 bits): every Request
 // names a block of its piece.  The scenarios are C02's (real AddTorrent loop, real peer).
 func TestVerifC11Huge(t *testing.T) {
+	if vh.ReplayFile() != "" {
+		var sc readScenario
+		if err := vh.LoadReplay(&sc); err != nil {
+			t.Fatal(err)
+		}
+		probs, out := runRead(t, sc)
+		fmt.Printf("scenario: %s\noutcome: %s\n", sc, out)
+		n := 0
+		for _, p := range probs {
+			if p.Prop == "C11" {
+				fmt.Printf("RESULT: violation %s: %s\n", p.Key, p.Msg)
+				n++
+			}
+		}
+		if n == 0 {
+			fmt.Println("RESULT: property held on this scenario")
+		}
+		return
+	}
 	if os.Getenv("VERIF_OUT") == "" {
 		t.Skip("verif harness: run through /verif/run")
 	}
